@@ -91,6 +91,12 @@ def run(chk, tier):
             chk.violation("C02/copy-forest/%s" % json.dumps(m["scenario"]["connects"]),
                           "copy classes / sigma cycles of the built circuit differ from the connect closure: %s" % (m.get("detail") or m.get("panic")),
                           {"forest_scenario": m["scenario"], "observed": m, "expected": "representative map = equivalence closure; sigma = one cycle per class"})
+    rsel = common.tlc("MCSelectors", cfg="MCSelectors", workers=4, timeout=900, tag="mcsel")
+    if not rsel.ok:
+        raise ToolError("spec Selectors violates %s" % rsel.violated)
+    chk.add_tlc("Selectors: all sorted degree sequences of <= 5 gates x max degree 4..9", rsel)
+    rc = common.tlc("MCSelectors", cfg="MCSelectors_canary", workers=2, timeout=600, tag="mcselcan")
+    chk.canary("Selectors mutant (group size ignored) violates the degree bound (TLC counterexample)", rc.violated is not None)
     for can in ("merge", "sigma"):
         rc = common.tlc("CopyForest", cfg="CopyForest_canary_" + can, workers=2, timeout=600, tag="cfcan" + can)
         chk.canary("CopyForest mutant %s violates an invariant (TLC counterexample)" % can, rc.violated is not None)
@@ -117,6 +123,32 @@ def run(chk, tier):
     byid = {s["id"]: s for s in rows}
     stats = {}
     distinct = set()
+    # ---- selector grouping of every built circuit, validated by TLC (trace validation)
+    sel = {}
+    for x in res:
+        if "selectors" in x:
+            sel[json.dumps(x["selectors"], sort_keys=True)] = x["selectors"]
+    res = [x for x in res if "selectors" not in x]
+    if sel:
+        sp = os.path.join(common.OUT, "c02_selectors.ndjson")
+        common.write_ndjson(sp, [sel[k] for k in sorted(sel)])
+        rs = common.tlc("SelectorsTrace", cfg="SelectorsTrace", workers=1, timeout=600, env={"TRACE": sp}, tag="c02seltrace")
+        m = [l for l in rs.raw.splitlines() if l.startswith('<<"SELTRACE"')]
+        if not rs.ok or not m:
+            raise ToolError("SelectorsTrace failed: " + rs.raw[-800:])
+        import re as _re
+        parts = _re.match(r'<<"SELTRACE", (\d+), \{(.*?)\}, \{(.*?)\}>>', m[0])
+        bad = [int(v) for v in parts.group(2).split(",") if v.strip()]
+        notgreedy = [int(v) for v in parts.group(3).split(",") if v.strip()]
+        chk.traces += int(parts.group(1)) - len(bad)
+        chk.extra["selector_groupings_validated"] = int(parts.group(1))
+        keys = sorted(sel)
+        for b in bad:
+            chk.violation("C02/selectors/%s" % json.dumps(sel[keys[b - 1]]["degrees"]),
+                          "selector groups of a built circuit violate the degree bound / filters do not separate the gates",
+                          {"selectors": sel[keys[b - 1]], "expected": "GroupsOk and FiltersOk of spec/Selectors.tla"})
+        for b in notgreedy:
+            chk.note_drift({"selectors_not_greedy": sel[keys[b - 1]]})
     for x in res:
         if "skipped" in x:
             stats["skipped:" + x["skipped"][:30]] = stats.get("skipped:" + x["skipped"][:30], 0) + 1
